@@ -8,7 +8,7 @@ def run(rep, tier, seed):
         rep.violation({'kind': 'proof-broken', 'log': pr['log'][-3000:], 'forbidden': pr['forbidden']}, suffix='no-failing-input-found')
     nh, nops = (32, 90) if tier == 'quick' else (1200, 300)
     import histgen
-    k2check.run_k2(rep, 'C01', tier, seed, 'c01', nh, nops, extra_histories=[histgen.straddle_history(40, 0), histgen.straddle_history(24, 1)])
+    k2check.run_k2(rep, 'C01', tier, seed, 'c01', nh, nops, extra_histories=[histgen.straddle_history(40, 0), histgen.straddle_history(24, 1)] + histgen.corpus_histories())
     rep.cov['rule'] = ('histories of put/del/batch/get/has/snapshot/flush/compact-range/compact/reopen/scan/iterate over colliding keys, '
                        'values 0 B..70 KiB(+1 MiB), random option configurations; every observed version edit is replayed on the Coq engine '
                        'model as a guarded step and every read is compared with the model get and the sorted-map spec; '
